@@ -68,6 +68,10 @@ pub struct Case {
     /// 3 = NaN) — a legitimate prediction that has to be placed like any other
     #[serde(default)]
     pub nonfinite_pred: Option<(usize, u8)>,
+    /// a session: these calls are made first, on the same thread, each judged like a run of its own (hidden state that
+    /// survives from one call to the next - a buffer, a cached permutation - needs a particular sequence of calls)
+    #[serde(default)]
+    pub prelude: Vec<Case>,
 }
 
 pub struct C16;
@@ -537,6 +541,7 @@ fn forced_small() -> &'static Small {
                             backend: 0,
                             n_splits_report: None,
                             nonfinite_pred: None,
+                            prelude: vec![],
                         });
                     }
                 }
@@ -559,6 +564,7 @@ fn forced_small() -> &'static Small {
                         backend: ((pi as usize + nt) % 6) as u8,
                         n_splits_report: None,
                         nonfinite_pred: None,
+                        prelude: vec![],
                     });
                 }
             }
@@ -1110,12 +1116,57 @@ impl Property for C16 {
                     note: "identity / reverse / rotation / parity-sorted / adjacent-swap permutations forced through the seam" },
             Batch { name: "splitter-party", count: if q { 20_000 } else { 400_000 }, simulated: true, exhaustive: false,
                     note: "a harness-owned BaseKFold party hands out explicit folds whose training part is not the complement of the test part (expanding window / sub-sampled / embargo); the folds must be used verbatim" },
+            Batch { name: "sessions", count: if q { 40_000 } else { 800_000 }, simulated: true, exhaustive: false,
+                    note: "sessions of 2..4 calls on one thread (train_test_split / KFold / cross_val_predict / cross_validate, shuffled and not, mostly on the same number of rows): every call is judged, so state that survives from one call to the next shows" },
             Batch { name: "party-fault", count: if q { 40_000 } else { 600_000 }, simulated: true, exhaustive: false,
                     note: "estimator fit/predict fails at a chosen fold; invariants are checked on the history prefix" },
         ]
     }
 
     fn gen(&self, batch: &str, index: u64, seed: u64) -> Case {
+        if batch == "sessions" {
+            let mut sr = Xo::fork(seed, "session");
+            let pick = |sr: &mut Xo, j: u64| -> Case {
+                let b = *sr.pick(&["prng-shuffle", "prng-shuffle", "extreme-shuffle", "forced-structured", "session-noshuffle", "session-noshuffle", "splitter-party"]);
+                let sub = crate::core::rng::Xo::fork(seed, "session-step").u64() ^ (j.wrapping_mul(0x9E37_79B9_7F4A_7C15));
+                if b == "session-noshuffle" {
+                    let mut c = self.gen("prng-shuffle", index, sub);
+                    c.shuffle = false;
+                    c.kind = "noshuffle".into();
+                    c
+                } else {
+                    self.gen(b, index, sub)
+                }
+            };
+            let mut main = pick(&mut sr, 0);
+            let steps = sr.usize_in(1, 3);
+            let mut prelude = vec![];
+            for j in 0..steps {
+                let mut c = pick(&mut sr, 1 + j as u64);
+                // mostly the same number of rows (and columns) as the call under judgement; custom folds are tied to their n
+                if c.custom_folds.is_none() && main.custom_folds.is_none() && sr.chance(0.8) {
+                    c.n = main.n;
+                    c.k = c.k.min(c.n).max(2);
+                    if sr.chance(0.5) {
+                        c.p = main.p;
+                    }
+                    if let Op::Split { test_size, .. } = &c.op {
+                        if ((c.n as f32) * *test_size) as usize == 0 {
+                            c.op = Op::Split { test_size: 0.5, f32m: false };
+                        }
+                    }
+                    if let Some((row, kind)) = c.nonfinite_pred {
+                        c.nonfinite_pred = Some((row % c.n, kind));
+                    }
+                    // a forced permutation prefix was synthesised for the old n
+                    c.tape.prefix.clear();
+                }
+                prelude.push(c);
+            }
+            main.prelude = prelude;
+            main.kind = format!("session/{}", main.kind);
+            return main;
+        }
         let mut r = Xo::fork(seed, "workload");
         let tape_seed = Xo::fork(seed, "schedule").u64();
         let big = index % 5 == 3; // every fifth run of a shuffled batch: n up to 300
@@ -1124,7 +1175,7 @@ impl Property for C16 {
             "noshuffle-exhaustive" => {
                 let (n, k) = noshuffle_pairs()[(index / 3) as usize];
                 let op = [Op::KFold, Op::CrossValPredict, Op::CrossValidate][(index % 3) as usize].clone();
-                Case { op, n, k, p: 1 + (index % 3) as usize, shuffle: false, fail_at: None, tape: TapeSpec::prng(tape_seed), kind: "noshuffle".into(), f32m: (n + k) % 4 == 0, custom_folds: None, ctor: ((n * 3 + k) % 3) as u8, backend: 0, n_splits_report: None, nonfinite_pred: None }
+                Case { op, n, k, p: 1 + (index % 3) as usize, shuffle: false, fail_at: None, tape: TapeSpec::prng(tape_seed), kind: "noshuffle".into(), f32m: (n + k) % 4 == 0, custom_folds: None, ctor: ((n * 3 + k) % 3) as u8, backend: 0, n_splits_report: None, nonfinite_pred: None, prelude: vec![] }
             }
             "split-noshuffle" => {
                 let f32m = index % 2 == 1;
@@ -1135,7 +1186,7 @@ impl Property for C16 {
                 while ((n as f32) * ts) as usize == 0 {
                     n += 7;
                 }
-                Case { op: Op::Split { test_size: ts, f32m }, n, k: 2, p: 1 + (index % 4) as usize, shuffle: false, fail_at: None, tape: TapeSpec::prng(tape_seed), kind: "noshuffle".into(), f32m: false, custom_folds: None, ctor: 0, backend: bk, n_splits_report: None, nonfinite_pred: None }
+                Case { op: Op::Split { test_size: ts, f32m }, n, k: 2, p: 1 + (index % 4) as usize, shuffle: false, fail_at: None, tape: TapeSpec::prng(tape_seed), kind: "noshuffle".into(), f32m: false, custom_folds: None, ctor: 0, backend: bk, n_splits_report: None, nonfinite_pred: None, prelude: vec![] }
             }
             "forced-perm-exhaustive" => forced_small().cases[index as usize].clone(),
             "split-boundary" => {
@@ -1153,25 +1204,25 @@ impl Property for C16 {
                 while ((n2 as f32) * ts) as usize == 0 {
                     n2 += 1; // precondition of the property: floor(n * test_size) >= 1
                 }
-                Case { op: Op::Split { test_size: ts, f32m: index % 2 == 1 }, n: n2, k: 2, p: 1 + (index % 3) as usize, shuffle: index % 4 < 2, fail_at: None, tape: TapeSpec::prng(tape_seed), kind: "prng".into(), f32m: false, custom_folds: None, ctor: 0, backend: bk, n_splits_report: None, nonfinite_pred: None }
+                Case { op: Op::Split { test_size: ts, f32m: index % 2 == 1 }, n: n2, k: 2, p: 1 + (index % 3) as usize, shuffle: index % 4 < 2, fail_at: None, tape: TapeSpec::prng(tape_seed), kind: "prng".into(), f32m: false, custom_folds: None, ctor: 0, backend: bk, n_splits_report: None, nonfinite_pred: None, prelude: vec![] }
             }
             "split-huge" => {
                 let n = if index % 3 == 2 { (1usize << 25) + r.usize_in(1, 64) } else { (1usize << 24) + r.usize_in(1, 64) };
                 let ts = *r.pick(&[0.75f32, 0.3, 0.1, 0.9, 0.5, 0.33333334]);
-                Case { op: Op::Split { test_size: ts, f32m: false }, n, k: 2, p: 1, shuffle: false, fail_at: None, tape: TapeSpec::prng(tape_seed), kind: "noshuffle".into(), f32m: false, custom_folds: None, ctor: 0, backend: 0, n_splits_report: None, nonfinite_pred: None }
+                Case { op: Op::Split { test_size: ts, f32m: false }, n, k: 2, p: 1, shuffle: false, fail_at: None, tape: TapeSpec::prng(tape_seed), kind: "noshuffle".into(), f32m: false, custom_folds: None, ctor: 0, backend: 0, n_splits_report: None, nonfinite_pred: None, prelude: vec![] }
             }
             "kfold-many-folds" => {
                 let k = *r.pick(&[65_537usize, 65_536, 65_538, 70_001]);
                 let k = if index == 0 { 65_537 } else { k };
                 let n = k + *r.pick(&[0usize, 0, 1, 5]);
-                Case { op: Op::KFoldHead { folds: 300 }, n, k, p: 1, shuffle: false, fail_at: None, tape: TapeSpec::prng(tape_seed), kind: "noshuffle".into(), f32m: false, custom_folds: None, ctor: (index % 3) as u8, backend: 0, n_splits_report: None, nonfinite_pred: None }
+                Case { op: Op::KFoldHead { folds: 300 }, n, k, p: 1, shuffle: false, fail_at: None, tape: TapeSpec::prng(tape_seed), kind: "noshuffle".into(), f32m: false, custom_folds: None, ctor: (index % 3) as u8, backend: 0, n_splits_report: None, nonfinite_pred: None, prelude: vec![] }
             }
             "split-large" => {
                 // train_test_split has no upper bound on n in the property: a few thousand rows, shuffled and not
                 let n = r.usize_in(1000, 20000);
                 let ts = if r.chance(0.5) { *r.pick(&TEST_SIZES) } else { r.range(0.0005, 1.0) as f32 };
                 let ts = if ((n as f32) * ts) as usize == 0 { 0.5 } else { ts };
-                Case { op: Op::Split { test_size: ts, f32m: false }, n, k: 2, p: r.usize_in(1, 3), shuffle: r.chance(0.6), fail_at: None, tape: TapeSpec::prng(tape_seed), kind: "prng".into(), f32m: false, custom_folds: None, ctor: 0, backend: bk, n_splits_report: None, nonfinite_pred: None }
+                Case { op: Op::Split { test_size: ts, f32m: false }, n, k: 2, p: r.usize_in(1, 3), shuffle: r.chance(0.6), fail_at: None, tape: TapeSpec::prng(tape_seed), kind: "prng".into(), f32m: false, custom_folds: None, ctor: 0, backend: bk, n_splits_report: None, nonfinite_pred: None, prelude: vec![] }
             }
             _ => {
                 let hi = if big { 300 } else { 64 };
@@ -1196,7 +1247,7 @@ impl Property for C16 {
                     5..=7 => Op::CrossValPredict,
                     _ => Op::CrossValidate,
                 };
-                let mut c = Case { op, n, k, p, shuffle: true, fail_at: None, tape: TapeSpec::prng(tape_seed), kind: "prng".into(), f32m: r.chance(0.25), custom_folds: None, ctor: r.below(3) as u8, backend: 0, n_splits_report: None, nonfinite_pred: None };
+                let mut c = Case { op, n, k, p, shuffle: true, fail_at: None, tape: TapeSpec::prng(tape_seed), kind: "prng".into(), f32m: r.chance(0.25), custom_folds: None, ctor: r.below(3) as u8, backend: 0, n_splits_report: None, nonfinite_pred: None, prelude: vec![] };
                 if matches!(c.op, Op::Split { .. }) {
                     c.backend = bk;
                 }
@@ -1307,13 +1358,43 @@ impl Property for C16 {
         let mut rep = Report::default();
         match guarded(|| {
             let mut r = Report::default();
-            let single = case.f32m || matches!(case.op, Op::Split { f32m: true, .. });
-            if single {
-                self.run_inner::<f32>(case, &mut r);
-            } else {
-                self.run_inner::<f64>(case, &mut r);
+            let one = |c: &Case, r: &mut Report| {
+                let single = c.f32m || matches!(c.op, Op::Split { f32m: true, .. });
+                if single {
+                    self.run_inner::<f32>(c, r);
+                } else {
+                    self.run_inner::<f64>(c, r);
+                }
+            };
+            // a session: the earlier calls of the sequence, each judged by the same oracles
+            let mut pre_digest = Digest::new();
+            for (i, pc) in case.prelude.iter().enumerate() {
+                let mut pr = Report::default();
+                one(pc, &mut pr);
+                pre_digest.u64(pr.log_digest);
+                for (k, v) in pr.counters.iter() {
+                    r.count(k, *v);
+                }
+                r.count("fault.earlier-call-in-session", 1);
+                if let Some(v) = pr.violation {
+                    r.fail(&v.class, &v.cause, format!("call {} of a session of {}: {}", i + 1, case.prelude.len() + 1, v.detail));
+                    r.log_digest = pre_digest.get();
+                    return r;
+                }
             }
-            r
+            let mut main = Report::default();
+            one(case, &mut main);
+            for (k, v) in r.counters.iter() {
+                *main.counters.entry(k.clone()).or_insert(0) += *v;
+            }
+            if !case.prelude.is_empty() {
+                pre_digest.u64(main.log_digest);
+                main.log_digest = pre_digest.get();
+                if let Some(v) = main.violation.as_mut() {
+                    v.detail = format!("call {} of a session of {} (after {}): {}", case.prelude.len() + 1, case.prelude.len() + 1, case.prelude.iter().map(|c| format!("{:?}/n={}/shuffle={}", c.op, c.n, c.shuffle)).collect::<Vec<_>>().join(", "), v.detail);
+                }
+            }
+            main
         }) {
             Ok(r) => rep = r,
             Err(msg) => {
@@ -1326,6 +1407,20 @@ impl Property for C16 {
 
     fn shrink(&self, case: &Case) -> Vec<Case> {
         let mut out = vec![];
+        // sessions: fewer calls first (no earlier calls at all; an earlier call promoted to the last one; one call dropped)
+        if !case.prelude.is_empty() {
+            let mut c = case.clone();
+            c.prelude.clear();
+            out.push(c);
+            for i in 0..case.prelude.len() {
+                let mut c = case.prelude[i].clone();
+                c.prelude = case.prelude[..i].to_vec();
+                out.push(c);
+                let mut c = case.clone();
+                c.prelude.remove(i);
+                out.push(c);
+            }
+        }
         let mut push = |c: Case| {
             if c == *case {
                 return;
@@ -1415,7 +1510,10 @@ impl Property for C16 {
 
     fn literalize(&self, case: &Case, report: &Report) -> Case {
         let mut c = case.clone();
-        c.tape = TapeSpec::literal(&report.tape, case.tape.seed);
+        // (a session keeps its seeded tape policies: they are deterministic, and the report carries one tape only)
+        if case.prelude.is_empty() {
+            c.tape = TapeSpec::literal(&report.tape, case.tape.seed);
+        }
         c
     }
 
